@@ -27,7 +27,7 @@ EXPLANATION = (
     "request that carries a multiplexer stores it from that request before anything that can abort; R4 exception to "
     "abort translation in on_request (specific before general, code passed unchanged, KeyError -> 0x06020000, default "
     "0x08000000); R5 the client decodes an abort as '<L' at offset 4 and raises SdoAbortedError(code) before returning; "
-    "R6 data_store has a single writer. R9 implicit array members inherit the access type of sub-index 1 (shared with C08.R11); R10 every set_data call in a handler reachable from on_request passes check_writable=True and no handler goes through the unchecked local download()/upload() helpers; R8 no class-level mutable object is mutated in place by instances (each node/client/map/dictionary has its own state)."
+    "R6 data_store has a single writer. R9 implicit array members inherit the access type of sub-index 1 (shared with C08.R11); R10 every set_data call in a handler reachable from on_request passes check_writable=True and no handler goes through the unchecked local download()/upload() helpers; R8 [R11: ODVariable.__len__ gives every data type its width and is never 0 (shared with C04.R5)] no class-level mutable object is mutated in place by instances (each node/client/map/dictionary has its own state)."
 )
 ASSUMPTIONS = [
     "not decided: random object dictionaries and request histories; write callbacks are opaque",
@@ -284,6 +284,9 @@ def run(chk):
     # ------------------------------------------------------------------ R9 implicit array members inherit the access type (shared with C08.R11)
     from . import c08 as _c08
     _c08.implicit_members(chk, "R9")
+    # ------------------------------------------------------------------ R11 ODVariable.__len__ per data type (the download length check compares with len(obj); shared with C04.R5)
+    from . import c04 as _c04len
+    _c04len.bit_length_by_type(chk, "R11")
     # ------------------------------------------------------------------ R8 instances are independent (shared clause)
     from . import shared as _shared
     _shared.isolation(chk, "R8", rels=['canopen/sdo/server.py', 'canopen/sdo/base.py', 'canopen/node/local.py', 'canopen/objectdictionary/__init__.py'])
